@@ -6,7 +6,7 @@
 (* Verdict per eval: "ok" if every entry is Close to the literal quantity,       *)
 (* "kf:<name>" if it is Close only under one listed open deviation, else "fail". *)
 EXTENDS PanelModel, TraceLib, FiniteSets
-CONSTANTS Tol, OpenKF
+CONSTANTS Tol, TolSolve, OpenKF
 VARIABLE l
 tvars == <<pvars, l>>
 
@@ -18,6 +18,8 @@ DecPd(j) ==
      fl |-> Fn([dof \in 1..3 |-> <<RatSeq(j.fl[dof][1]), RatSeq(j.fl[dof][2])>>]),
      stack |-> Fn([k \in 1..Len(j.stack) |-> DecPly(j.stack[k])]), off |-> InRat(j.off),
      y1 |-> InRat(j.y1), y2 |-> InRat(j.y2), mu |-> InRat(j.mu), Ncte |-> RatSeq(j.Ncte)]
+Pts(s) == Fn([k \in 1..Len(s) |-> <<InRat(s[k][1]), InRat(s[k][2])>>])
+Forces(s) == Fn([k \in 1..Len(s) |-> RatSeq(s[k])])
 DecReq(j) ==
     LET pl == [size |-> j.size, row0 |-> j.row0, col0 |-> j.col0]
     IN CASE j.q = "k0"  -> [q |-> "k0"] @@ pl
@@ -25,27 +27,60 @@ DecReq(j) ==
          [] j.q = "kM"  -> [q |-> "kM"] @@ pl
          [] j.q = "kA"  -> [q |-> "kA", flow |-> j.flow, beta |-> InRat(j.beta), gamma |-> InRat(j.gamma)] @@ pl
          [] j.q = "cA"  -> [q |-> "cA", aeromu |-> InRat(j.aeromu)] @@ pl
+         [] j.q = "uvw" -> [q |-> "uvw", c |-> RatSeq(j.c), pts |-> Pts(j.pts)] @@ pl
+         [] j.q \in {"strain", "stress"} -> [q |-> j.q, c |-> RatSeq(j.c), pts |-> Pts(j.pts), NL |-> j.NL] @@ pl
+         [] j.q \in {"fext", "static"} -> [q |-> "fext", forces |-> Forces(j.forces), forcesInc |-> Forces(j.forcesInc),
+                                            inc |-> InRat(j.inc)] @@ pl
 
+(* E: rows of <<value, scale>>; obs: rows of doubles *)
 BadEntries(obs, E) ==
     IF Len(obs) # Len(E) THEN {<<0, 0>>}
-    ELSE { rc \in (1..Len(E)) \X (1..Len(E)) : ~Close(obs[rc[1]][rc[2]], E[rc[1]][rc[2]][1], E[rc[1]][rc[2]][2], Tol) }
+    ELSE IF Len(E) = 0 THEN {}
+    ELSE { rc \in (1..Len(E)) \X (1..Len(E[1])) : ~Close(obs[rc[1]][rc[2]], E[rc[1]][rc[2]][1], E[rc[1]][rc[2]][2], Tol) }
+Shape(r, M) == IF r.q = "fext" THEN Fn([k \in 1..Len(M) |-> <<M[k]>>]) ELSE M
+(* the smallest set of listed open deviations (at most two) under which the observation is explained *)
 RECURSIVE FirstKF(_,_,_,_)
-FirstKF(kfs, obs, d, r) ==
-    IF kfs = {} THEN "none"
-    ELSE LET k == CHOOSE x \in kfs : TRUE
-         IN IF BadEntries(obs, Placed(QuantityDev(d, r, {k}), r)) = {} THEN k
-            ELSE FirstKF(kfs \ {k}, obs, d, r)
+FirstKF(cands, obs, d, r) ==
+    IF cands = {} THEN {}
+    ELSE LET k == CHOOSE x \in cands : \A y \in cands : Cardinality(x) <= Cardinality(y)
+         IN IF BadEntries(obs, Shape(r, Placed(QuantityDev(d, r, k), r))) = {} THEN k
+            ELSE FirstKF(cands \ {k}, obs, d, r)
+KFCands == { S \in SUBSET OpenKF : S # {} /\ Cardinality(S) <= 2 }
+RECURSIVE JoinNames(_)
+JoinNames(S) == IF S = {} THEN ""
+                ELSE LET k == CHOOSE x \in S : TRUE
+                     IN IF S = {k} THEN k ELSE k \o "+" \o JoinNames(S \ {k})
+
+(* static solution: backward-error criterion evaluated exactly.  For every amplitude r:
+   rows of K without any stiffness must carry c_r = 0 exactly; otherwise
+   |SUM_j K[r][j] c_j - f_r| <= 2^-TolSolve (SUM_j |K[r][j]||c_j| + |f_r|) *)
+StaticBad(cobs, d, f) ==
+    LET K == K0(d)
+        n == Len(K)
+        c == Fn([k \in 1..n |-> Obs(cobs[k][1])])
+        ca == Fn([k \in 1..n |-> RAbs(c[k])])
+    IN IF Len(cobs) # n THEN {0}
+       ELSE { r \in 1..n :
+               LET row == Fn([j \in 1..n |-> K[r][j][1]])
+                   rowa == Fn([j \in 1..n |-> K[r][j][2]])
+               IN IF \A j \in 1..n : RIsZero(K[r][j][1]) /\ RIsZero(K[j][r][1])
+                  THEN ~RIsZero(c[r])
+                  ELSE ~RLe(RAbs(RSub(RDot(row, c), f[r][1])),
+                            RMul(RTwoPow(-TolSolve), RAdd(RDot(rowa, ca), f[r][2]))) }
 
 TInit == PInit /\ l = 1
 TDefine(e) == Define(DecPd(e.pd))
 TEval(e) ==
     LET r == DecReq(e.req)
     IN /\ Eval(r)
-       /\ LET bad == BadEntries(e.obs, out')
-          IN IF bad = {} /\ e.flags_ok THEN Verdict(e.id, "ok", {})
-             ELSE LET k == IF e.flags_ok THEN FirstKF(OpenKF, e.obs, def, r) ELSE "none"
-                  IN IF k # "none" THEN Verdict(e.id, "kf:" \o k, Cardinality(bad))
-                     ELSE Verdict(e.id, "fail", IF Cardinality(bad) > 12 THEN <<Cardinality(bad), CHOOSE x \in bad : TRUE>> ELSE bad)
+       /\ IF e.req.q = "static"
+          THEN LET bad == StaticBad(e.obs, def, out')
+               IN Verdict(e.id, IF bad = {} /\ e.flags_ok THEN "ok" ELSE "fail", bad)
+          ELSE LET bad == BadEntries(e.obs, Shape(r, out'))
+               IN IF bad = {} /\ e.flags_ok THEN Verdict(e.id, "ok", {})
+                  ELSE LET k == IF e.flags_ok THEN FirstKF(KFCands, e.obs, def, r) ELSE {}
+                       IN IF k # {} THEN Verdict(e.id, "kf:" \o JoinNames(k), Cardinality(bad))
+                          ELSE Verdict(e.id, "fail", IF Cardinality(bad) > 12 THEN <<Cardinality(bad), CHOOSE x \in bad : TRUE>> ELSE bad)
 TStep == /\ l <= Len(Trace)
          /\ l' = l + 1
          /\ LET e == Trace[l] IN IF e.ev = "define" THEN TDefine(e) ELSE TEval(e)
